@@ -52,7 +52,9 @@ func keyMaterialOracle(r *kit.Run, prop string, d *DKGRun, s *worldx.State, labe
 	if len(ready) == 0 {
 		return false
 	}
-	trace := func() interface{} { return map[string]interface{}{"n": d.N, "t": d.T, "scenario": label, "trace": s.Trace()} }
+	trace := func() interface{} {
+		return map[string]interface{}{"n": d.N, "t": d.T, "scenario": label, "trace": s.Trace()}
+	}
 	suite := oracle.Suite()
 	var polys [][][]byte
 	var shares []*share.PriShare
